@@ -136,9 +136,51 @@ def thumb_cond_branches(task):
     return [g]
 
 
+def excret_into_it(task):
+    """two-step histories: an exception return (MOVS PC,LR / SUBS PC,LR,#imm / RFE) from an ARM-state handler into Thumb code
+    in the MIDDLE of an IT block - the SPSR holds a random legal ITSTATE - and then, on the same object without re-preparing it,
+    the instruction returned to, which must execute (or not) under exactly the restored IT condition"""
+    rnd = random.Random(task['seed'])
+    g = S.mk_group(dict(task, randmem=task['seed']))
+    for k in range(task['n']):
+        st, pc = S.prep(g, rnd, dict(task, modes='all'), False, 0, k)
+        mode = rnd.choice([19, 18, 23, 27, 17])
+        bank = {19: 'svc', 18: 'irq', 23: 'abt', 27: 'und', 17: 'fiq'}[mode]
+        st['cpsr'] = limbs((C.unlimbs(st['cpsr']) & ~0x1F & ~0x0600FC20) | mode)
+        cond, f = rnd.randrange(14), rnd.randrange(16)
+        it = (cond << 4) | rnd.randrange(1, 16)
+        target = 0x80 + 2 * rnd.randrange(24)
+        spsr = (f << 28) | 0x20 | 16 | ((it >> 2) & 0x3F) << 10 | (it & 3) << 25
+        st['spsr'][bank] = limbs(spsr)
+        kind = rnd.randrange(3)
+        if kind == 0:
+            w = 0xE1B0F00E                                                   # MOVS pc, lr
+            st['R']['LR' + bank] = limbs(target)
+        elif kind == 1:
+            imm = rnd.choice([4, 8, 2])
+            w = 0xE25EF000 | imm                                             # SUBS pc, lr, #imm
+            st['R']['LR' + bank] = limbs(target + imm)
+        else:
+            w = 0xF89D0A00 | (rnd.getrandbits(1) << 21)                      # RFEIA sp{!}
+            st['R']['SP' + bank] = limbs(0xC0)
+            mem = st['mem']['base'][0]
+            mem[0xC0:0xC8] = [(target >> (8 * i)) & 0xFF for i in range(4)] + [(spsr >> (8 * i)) & 0xFF for i in range(4)]
+        C.put_instr(st, pc, w, False)
+        h = 0x3000 | (rnd.randrange(8) << 8) | rnd.getrandbits(8)              # ADDS Rd, #imm8 (no flags inside the block)
+        C.put_instr(st, target, h, True)
+        e, post = g.add(st, {'n': 'Step'}, meta={'word': w, 'excret': 1, 'it': it, 'flags': f})
+        if e['out'] == 'completed':
+            cur = C.M.project(g.arm)
+            cur = {k2: cur[k2] for k2 in ('R', 'cpsr', 'spsr', 'elr', 'sys', 'mem', 'ev')}
+            g.add(cur, {'n': 'Step'}, meta={'word': h, 'excret': 2, 'it': it, 'flags': f, 'cond': cond})
+    return [g]
+
+
 def clause_filter(c, v, e):
     if c in ('nop-on-condfail', 'cond-pass-differs'):
         return True
+    if v['path'].startswith('exact:') and c == 'cpsr.IT':
+        return True                                           # the IT state is what conditions are read from
     if v['path'] in ('exact:B_T1', 'exact:B_T3'):
         return c not in ('range', 'confine')                  # a conditional branch whose condition passes must branch
     return v['path'].startswith('exact:condfail') and c not in ('hosterror', 'range', 'confine')
@@ -183,6 +225,9 @@ def run(ctx):
         ws = S.random_words(random.Random(ctx.seed + 90 + i), n // 2)
         ws += [(True, rnd.getrandbits(16)) for _ in range(n // 4)]
         tasks.append((pos_pairs, dict(name='pos-%d' % i, seed=ctx.seed + 120 + i, words=ws, pairs=PASSING, modes='all')))
+    for i in range(4):
+        tasks.append((excret_into_it, dict(name='excret-it-%d' % i, seed=ctx.seed + 500 + i, n=150 if q else 4000,
+                                           cfg={'arch_version': 7} if i % 2 else {})))
     groups = C.parallel(_dispatch, tasks)
     res = C.judge_groups(ctx, groups, clause_filter, rnd=rnd,
                          tags_of=lambda g, e, v: dict(g.meta.get(e['id'], {}), grp=g.name.rsplit('-', 1)[0]))
@@ -196,7 +241,8 @@ def run(ctx):
                          '(quick: every 4th) and random 32-bit Thumb words inside an IT block whose condition fails '
                          '-> post must be exactly PC += len, IT advanced (or UNDEFINED/not-implemented); positive '
                          'path: same word under a passing condition and under AL from the same state must have the '
-                         'same delta')
+                         'same delta; exception returns (MOVS PC,LR / SUBS PC,LR / RFE) into the middle of an IT block followed by the '
+                         'instruction returned to on the same object (restored IT state = the condition it executes under)')
     for g, e, v in res[:2] + res[-1:]:
         ctx.sample({'group': g.name, 'meta': g.meta.get(e['id']), 'out': e['out'], 'cls': e['cls'], 'delta': e['d'],
                     'verdict': v})
